@@ -11,9 +11,11 @@ SPEC = {
             "subset of pending directory operations, durable or volatile contents, torn and zero-filled unsynced log tails at "
             "random bytes); the image becomes the live directory, the index is reopened, a new writer's recovered queue is "
             "read through the verif_pending hook and the history goes on (further appends, commits, rollbacks, crashes); at the "
-            "end a healthy writer commits. Coq runs the executable specification (C02.Model.spec) over the event list: queue "
-            "bounds at every crash, allowed contents, final contents. Every case contains at least one crash; distinct = "
-            "distinct event lists",
+            "end a healthy writer commits. Coq decides for the event list (a) correspondence: it is a history of the whole-history "
+            "model C02/History.v (C02.History.corr_case: every call well-formed, every crash observation among the model's "
+            "outcomes at some micro-operation boundary consistent with the observed 'whole call ran' / 'log sync completed' "
+            "flags, final contents equal) and (b) the executable specification C02.Model.spec: queue bounds at every crash, "
+            "allowed contents, final contents. Every case contains at least one crash; distinct = distinct event lists",
     "trusted_base": [
         "file-system rules of DESIGN.md 3.3 as implemented by harness/src/crashfs.rs (no real crash happens)",
         "the byte-level log model Wal/Model.v (tied to the real Wal::append_*/replay by the c02codec engine of C17's worker) "
@@ -39,12 +41,18 @@ MANIFEST_ENTRY = {
             "C02_log_entry_durable); contents level - re-applying an already committed batch in front of new operations "
             "changes nothing (C02_reapply_harmless); protocol level - at every operation boundary of a commit every combination "
             "of recoverable contents and recoverable queue is 'old contents + queue between synced and whole batch' or 'new "
-            "contents + empty queue or the whole batch' (C02_commit_windows, over C01's crash-aware disk and the log jointly). The statement over whole histories with up to three crashes is decided "
-            "on the real implementation by the executable specification C02.Model.spec evaluated in Coq on crash histories "
-            "(a test of the implementation against a formal spec, not a theorem about a whole-history model). Three genuine "
-            "defects were found and repaired (unsynced log directory entry, torn tail followed by appends, and C01's rename).",
-    "note": "Trusted: Coq kernel; the crash rules and their Rust implementation; hooks (fs trace, verif_pending). Partial: no "
-            "Coq model of whole histories with crashes, so 'exactly the queued operations ... after any sequence of crashes' "
-            "is carried by theorems about the log (bytes and records) plus the spec-checked differential runs.",
-    "technique": "Coq proofs about the log codec and the crash semantics of the log file + Coq-evaluated executable specification on real multi-crash histories",
+            "contents + empty queue or the whole batch' (C02_commit_windows, over C01's crash-aware disk and the log jointly); "
+            "whole histories - C02/History.v models the single-handle writer protocol as micro-operations on the log and an "
+            "index with a pending-switch window, a crash at any micro-operation boundary with any outcome of both sides, and "
+            "C02_history_meets_spec / C02_history_simulation prove by a simulation invariant that every history of the model, "
+            "of any length with any number of crashes, satisfies the executable specification C02.Model.spec written from the "
+            "statement (queue between synced and issued operations in order, commit windows, final contents with outstanding "
+            "operations applied once). The tie evaluates both the model-membership test and the specification on real crash "
+            "runs. Three genuine defects were found and repaired (unsynced log directory entry, torn tail followed by appends, "
+            "and C01's rename).",
+    "note": "Trusted: Coq kernel; the crash rules and their Rust implementation; hooks (fs trace, verif_pending). Partial: the "
+            "whole-history model takes the manifest switch as a two-step window (justified by C01's theorems, not re-derived "
+            "from the file-level disk model inside the history theorem) and covers one live handle at a time; the post-crash "
+            "log is abstracted to the recovered queue (lemma pending_map_ROp).",
+    "technique": "Coq proofs: log codec, crash semantics of the log file, commit windows, and a whole-history simulation theorem (model refines the executable specification); correspondence = real multi-crash histories accepted by the model, evaluated in Coq",
 }
